@@ -13,14 +13,14 @@ CHECKS = {
 }
 
 CHECKS["C01"] = dict(
-    text="Coq theorems: both lexer models are total on every code-point list (never crash, fuel never exhausted) and an escape is only accepted when all its characters exist; tied to the code by exhaustive lexer correspondence on short strings; parser entry points, graphql_sync with hostile variables/operation names/raising resolvers are explored directly against the response-format predicate",
-    note="lexers modelled and proved; parser/validation/execution totality is explored on the implementation, not proved (parser not modelled); Exception subclasses only; nesting <= 100",
-    technique="Coq proof (lexer totality) + extraction-based correspondence + direct totality search",
+    text='Coq theorems: both lexer models and all five parser entry points (parse, parse_value, parse_const_value, parse_type, parse_schema_coordinate; full grammar incl. SDL, extensions and experimental syntaxes) are total on every code-point list: the outcome is a tree or a syntax error with an in-bounds position, never a crash, and the stated fuel never runs out; an escape is accepted only when all its characters exist. Tied to the code by exhaustive lexer correspondence on short strings and parser correspondence (outcome class, error position, whole tree) on the corpus, all short strings, coordinates, fixture prefixes and token mutants; graphql_sync with hostile variables/operation names/raising resolvers is explored directly against the response-format predicate',
+    note="lexers and parser modelled and proved total; validation/execution totality is explored on the implementation, not proved; Exception subclasses only; nesting <= 100 (deeper input may hit CPython's recursion limit, which the model does not have)",
+    technique='Coq proof (lexer and parser totality) + extraction-based correspondence + direct totality search',
     design="4/C01")
 CHECKS["C09"] = dict(
-    text="Coq theorems: the lexer model (written from the lexical grammar) tiles every accepted source into ignored-only gaps and non-empty lexemes with ordered, disjoint, in-bounds spans; the implementation's character-class/punctuator/ignored/line-terminator tables are re-swept on every run and proved equal to the specification's; implementation lexer = model on all short strings and generated sources (kinds, spans, values, lines/columns, reject positions); strip/insert/token-limit laws checked directly",
-    note="lexer modelled and proved; strip_ignored_characters, parser independence of layout and the token limit law are metamorphic checks on the implementation (parser not modelled)",
-    technique="Coq proof (lexer spans, regenerated table obligations) + extraction-based correspondence + metamorphic checks",
+    text="Coq theorems: the lexer model (written from the lexical grammar) tiles every accepted source into ignored-only gaps and non-empty lexemes with ordered, disjoint, in-bounds spans; the parser model's result depends only on the significant-token sequence (C09_parse_independent_of_layout), a source the lexer rejects is rejected by the parser, and the token limit is exact (accepts n tokens, rejects n+1; C09_token_limit); the implementation's character-class/punctuator/ignored/line-terminator tables are re-swept on every run and proved equal to the specification's; implementation lexer = model on all short strings and generated sources (kinds, spans, values, lines/columns, reject positions); parser = model on token-alphabet sequences and generated documents incl. max_tokens n-1/n/n+1; strip/insert laws checked directly",
+    note="lexer and parser modelled and proved; strip_ignored_characters itself is a metamorphic check on the implementation (its block-string re-printing is covered by C08's block theorems)",
+    technique='Coq proof (lexer spans, parser layout independence and token limit, regenerated table obligations) + extraction-based correspondence + metamorphic checks',
     design="4/C09")
 
 CHECKS["C11"] = dict(
@@ -30,9 +30,9 @@ CHECKS["C11"] = dict(
     design="4/C11")
 
 CHECKS["C08"] = dict(
-    text="Coq theorem: for every string of Unicode scalar values, the lexer model reads print_string's output back to exactly that string (escape table regenerated from the implementation every run, obligations re-checked by coqc). Block strings and whole documents: exhaustive/generated round-trip checks on the implementation (both string forms in programmatic trees at nesting depths 0-3, all lexer-range block values over a 14-symbol adversarial alphabet, grammar-generated documents incl. experimental syntaxes, print fixed point)",
-    note="proof covers the quoted form only; block-string round trip and parse(print(d)) == d are explored on the implementation, not proved (parser/printer not modelled)",
-    technique="Coq proof (quoted string round trip over regenerated escape table) + exhaustive/generated round-trip exploration",
+    text="Coq theorems: for every string of Unicode scalar values the lexer model reads print_string's output back to exactly that string (escape table regenerated from the implementation every run); for every block-string value in the lexer's range print_block_string's output lexes back to the value (C08_block_roundtrip, range characterised, out-of-range refuted with witness); for every well-formed tree of the full grammar, parsing the unparsed token sequence gives the tree back (C08_unparse_parse_roundtrip) and every parser output is well formed. Tied by extraction-based correspondence: print_string / print_block_string vs models on exhaustive alphabets; tokens_of(model tree) = re-lexed print_ast(impl tree), parse(print_ast d) == d and whole-tree equality on the corpus and generated documents; programmatic trees with both string forms at nesting depths 0-3; print fixed point",
+    note="the model's unparse produces a token sequence; print_ast's concrete layout (indentation, line breaking at 80 columns, block-string choice) is tied to it by the re-lex correspondence, not proved; programmatic trees outside the parser's range (e.g. names that are not Names) are out of the property's scope",
+    technique='Coq proof (quoted and block string round trip, unparse-parse round trip) + extraction-based correspondence and generated round-trip exploration',
     design="4/C08")
 
 CHECKS["C03"] = dict(
@@ -94,8 +94,8 @@ CHECKS["C13"] = dict(
 NOT_YET = {}
 
 
-MODELS = {"C01": ["lang"], "C03": ["errorsalg"], "C04": ["incr"], "C07": ["subscribe", "exec"], "C08": ["lang"],
-          "C09": ["lang"], "C10": ["lang"], "C11": ["lang"], "C12": ["compose"], "C14": ["overlap"], "C15": ["coerce"],
+MODELS = {"C01": ["lang", "parser"], "C03": ["errorsalg"], "C04": ["incr"], "C07": ["subscribe", "exec"], "C08": ["lang", "blockstring", "parser"],
+          "C09": ["lang", "parser"], "C10": ["lang"], "C11": ["lang"], "C12": ["compose"], "C14": ["overlap"], "C15": ["coerce"],
           "C16": ["scalars"], "C20": ["schemaval"], "C02": ["exec"], "C13": ["exec"], "C05": ["workqueue"],
           "C06": ["lifecycle"], "C17": ["schemaops"], "C18": ["schemaops"], "C19": ["schemaops"]}
 
